@@ -592,7 +592,12 @@ public:
             x.key -= first_key;
         }
 
-        ef = decltype(ef)(tmp.begin(), std::prev(tmp.end()));
+        // The segments starting at the sentinel (the last one and, when the last key is sentinel - 1, also the one
+        // mapping the keys greater than the last one to n) are never the result of a search. They are left out of the
+        // Elias-Fano code, whose universe would otherwise be one more than the largest value of K.
+        auto sentinel = PGMIndex<K, Epsilon, 0, Floating>::sentinel - first_key;
+        auto ef_end = std::find_if(tmp.begin(), tmp.end(), [&](const auto &x) { return x.key == sentinel; });
+        ef = decltype(ef)(tmp.begin(), ef_end);
     }
 
     /**
